@@ -799,6 +799,17 @@ def install(mdl, production_names=None):
         return it.call_value(a[1], [Ref([cell], 0)])
     ov(r'^LocalKey::<.*>::with::<', local_with)
 
+    def local_with_borrow(it, ci, a, d):
+        # LocalKey<RefCell<T>>::with_borrow(f) = with(|c| f(&c.borrow())), with_borrow_mut likewise
+        key = deref(a[0])
+        kname = key.data if type(key) is Opaque else str(getattr(key, 'path', key)).split('::')[-1]
+        cell = it.env['tls'].get(kname)
+        if cell is None:
+            raise Inconclusive('unknown thread-local %r' % (kname,))
+        it.env.setdefault('tls_touched', set()).add(kname)
+        return it.call_value(a[1], [Ref(cell.fields, 0)])
+    ov(r'^LocalKey::<.*>::with_borrow(_mut)?::<', local_with_borrow)
+
     def borrow(it, ci, a, d):
         c = deref(a[0])
         return Struct('CellRef', [Ref(c.fields, 0)])
